@@ -148,7 +148,7 @@ func LocationFunctions(ctx *Context, loc *Location, runtime *otto.Otto, env map[
 			throwJavascript(call.Otto.Call("new Error", nil, "No id (first arg) given"))
 		}
 
-		x, err := call.Argument(1).Export()
+		x, err := exportJavascript(call.Otto, call.Argument(1))
 		if err != nil {
 			throwJavascript(call.Otto.Call("new Error", nil, "No object (second arg) given"))
 		}
@@ -179,7 +179,7 @@ func LocationFunctions(ctx *Context, loc *Location, runtime *otto.Otto, env map[
 			throwJavascript(call.Otto.Call("new Error", nil, "No id (first arg) given"))
 		}
 
-		x, err := call.Argument(1).Export()
+		x, err := exportJavascript(call.Otto, call.Argument(1))
 		if err != nil {
 			throwJavascript(call.Otto.Call("new Error", nil, "No object (second arg) given"))
 		}
@@ -205,7 +205,7 @@ func LocationFunctions(ctx *Context, loc *Location, runtime *otto.Otto, env map[
 	env["ProcessEvent"] = func(call otto.FunctionCall) otto.Value {
 		// id, object
 		Log(DEBUG, ctx, "Javascript.ProcessEvent")
-		x, err := call.Argument(0).Export()
+		x, err := exportJavascript(call.Otto, call.Argument(0))
 		if err != nil {
 			throwJavascript(call.Otto.Call("new Error", nil, "No object (first arg) given"))
 		}
@@ -231,7 +231,7 @@ func LocationFunctions(ctx *Context, loc *Location, runtime *otto.Otto, env map[
 	env["Search"] = func(call otto.FunctionCall) otto.Value {
 		// object
 		Log(DEBUG, ctx, "Javascript.Search")
-		x, err := call.Argument(0).Export()
+		x, err := exportJavascript(call.Otto, call.Argument(0))
 		if err != nil {
 			throwJavascript(call.Otto.Call("new Error", nil, "No object (first arg) given"))
 		}
@@ -258,7 +258,7 @@ func LocationFunctions(ctx *Context, loc *Location, runtime *otto.Otto, env map[
 	env["Query"] = func(call otto.FunctionCall) otto.Value {
 		// object
 		Log(DEBUG, ctx, "Javascript.Query")
-		m, err := call.Argument(0).Export()
+		m, err := exportJavascript(call.Otto, call.Argument(0))
 		if err != nil {
 			throwJavascript(call.Otto.Call("new Error", nil, "No object (first arg) given"))
 		}
@@ -391,7 +391,7 @@ func jsFun_httpx(ctx *Context, runtime *otto.Otto, env map[string]interface{}) f
 		timer := NewTimer(ctx, "jsFun_httpx")
 		defer timer.Stop()
 
-		spec, err := call.Argument(0).Export()
+		spec, err := exportJavascript(call.Otto, call.Argument(0))
 		if err != nil {
 			throwJavascript(call.Otto.Call("new Error", nil, err.Error()))
 		}
@@ -511,6 +511,42 @@ var JavascriptTestValue interface{}
 // Zero or negative means no limit.
 var JavascriptStackDepthLimit = 5000
 
+// exportJavascript exports a Javascript value to Go.
+//
+// A value that refers to itself ("var o = {}; o.self = o; o") sends
+// otto's Export into unbounded recursion: a fatal stack overflow that
+// kills the process.  JSON.stringify notices such a value (and a
+// value that cannot be written as JSON is of no use to us anyway).
+func exportJavascript(vm *otto.Otto, v otto.Value) (interface{}, error) {
+	if vm != nil && v.IsObject() && !v.IsFunction() {
+		if err := circularJavascript(vm, v); err != nil {
+			return nil, err
+		}
+	}
+	return v.Export()
+}
+
+// circularJavascript returns JSON.stringify's complaint about a
+// circular structure, if any.  Anything else that goes wrong in there
+// (values backed by Go structs can make it panic) is not our business
+// here.
+func circularJavascript(vm *otto.Otto, v otto.Value) (err error) {
+	defer func() {
+		if r := recover(); r != nil {
+			if r == Halt {
+				panic(r) // (the Javascript timeout)
+			}
+			err = nil
+		}
+	}()
+	if _, err = vm.Call("JSON.stringify", nil, v); err != nil {
+		if !strings.Contains(err.Error(), "circular") {
+			err = nil
+		}
+	}
+	return err
+}
+
 // RunJavascript executes Javascript code with the given bindings.  A
 // new environment is created for each call.  That environment
 // contains several bindings.  See
@@ -574,7 +610,7 @@ func RunJavascript(ctx *Context, bs *Bindings, props map[string]interface{}, src
 		env["exec"] = func(call otto.FunctionCall) otto.Value {
 			// First arg is a object that specifies a CommandSpec.
 			Log(DEBUG, ctx, "core.RunJavascript", "f", "exec", "call", call)
-			x, err := call.Argument(0).Export()
+			x, err := exportJavascript(call.Otto, call.Argument(0))
 			if err != nil {
 				Log(WARN, ctx, "core.RunJavascript", "f", "exec", "call", call, "error", err)
 				throwJavascript(call.Otto.Call("new Error", nil, err.Error()))
@@ -606,7 +642,7 @@ func RunJavascript(ctx *Context, bs *Bindings, props map[string]interface{}, src
 				throwJavascript(call.Otto.Call("new Error", nil, err.Error()))
 			}
 			cs := CommandSpec{}
-			opts, err := call.Argument(1).Export()
+			opts, err := exportJavascript(call.Otto, call.Argument(1))
 			if err != nil {
 				Log(WARN, ctx, "core.RunJavascript", "f", "exec", "call", call, "error", err)
 				throwJavascript(call.Otto.Call("new Error", nil, err.Error()))
@@ -681,7 +717,7 @@ func RunJavascript(ctx *Context, bs *Bindings, props map[string]interface{}, src
 	env["log"] = func(call otto.FunctionCall) otto.Value {
 		Log(DEBUG, ctx, "core.RunJavascript", "f", "log")
 		o := call.Argument(0)
-		x, err := o.Export()
+		x, err := exportJavascript(call.Otto, o)
 		if err == nil {
 			m, ok := x.(map[string]interface{})
 			if ok {
@@ -735,7 +771,7 @@ func RunJavascript(ctx *Context, bs *Bindings, props map[string]interface{}, src
 		if nil != v {
 			switch vv := v.(type) {
 			case chan interface{}:
-				x, err := call.Argument(0).Export()
+				x, err := exportJavascript(call.Otto, call.Argument(0))
 				if err != nil {
 					Log(WARN, ctx, "core.RunJavascript", "f", "out", "err", err)
 				} else {
@@ -758,7 +794,7 @@ func RunJavascript(ctx *Context, bs *Bindings, props map[string]interface{}, src
 	// 	if err != nil {
 	// 		throwJavascript(call.Otto.Call("new Error", nil, err.Error()))
 	// 	}
-	// 	val, err := call.Argument(1).Export()
+	// 	val, err := exportJavascript(call.Otto, call.Argument(1))
 	// 	if err != nil {
 	// 		throwJavascript(call.Otto.Call("new Error", nil, err.Error()))
 	// 	}
@@ -785,13 +821,13 @@ func RunJavascript(ctx *Context, bs *Bindings, props map[string]interface{}, src
 
 	env["match"] = func(call otto.FunctionCall) otto.Value {
 		Log(DEBUG, ctx, "core.RunJavascript", "f", "match", "call", call)
-		pat, err := call.Argument(0).Export()
+		pat, err := exportJavascript(call.Otto, call.Argument(0))
 		if err != nil {
 			Log(WARN, ctx, "core.RunJavascript", "f", "0.Export", "warning", err)
 			throwJavascript(call.Otto.Call("new Error", nil, err.Error()))
 		}
 		Log(DEBUG, ctx, "core.RunJavascript", "f", "match", "pat", pat, "type", fmt.Sprintf("%T", pat))
-		fact, err := call.Argument(1).Export()
+		fact, err := exportJavascript(call.Otto, call.Argument(1))
 		if err != nil {
 			Log(WARN, ctx, "core.RunJavascript", "f", "1.Export", "warning", err)
 			throwJavascript(call.Otto.Call("new Error", nil, err.Error()))
@@ -966,7 +1002,7 @@ func RunJavascript(ctx *Context, bs *Bindings, props map[string]interface{}, src
 		Log(ERROR, ctx, "core.RunJavascript", "error", err.Error(), "when", "runtime.Run")
 		return nil, err
 	}
-	x, err := v.Export()
+	x, err := exportJavascript(runtime, v)
 	if err != nil {
 		Log(ERROR, ctx, "core.RunJavascript", "error", err.Error(), "when", "v.Export")
 		return nil, err
